@@ -13,9 +13,31 @@ Record case := {
 
 (* Case files carry bytes as primitive 63-bit integers (7 bytes each). *)
 From WG Require Import Base.Ints.
+From Coq Require Import Uint63.
+Local Open Scope N_scope.
 (* a buffer: capacity, byte length of (10-byte header region ++ packet), data *)
+(* Unpacking with primitive shifts and masks (Base.Ints.unpack goes through N division: 37 us per
+   byte, which dominated the run time of the case files). *)
+Definition bitn (b : Uint63.int) (k : Uint63.int) (w : N) : N :=
+  if Uint63.eqb (Uint63.land (Uint63.lsr b k) 1%uint63) 0%uint63 then 0 else w.
+Definition byte_of_int (b : Uint63.int) : N :=
+  bitn b 0%uint63 1 + bitn b 1%uint63 2 + bitn b 2%uint63 4 + bitn b 3%uint63 8
+  + bitn b 4%uint63 16 + bitn b 5%uint63 32 + bitn b 6%uint63 64 + bitn b 7%uint63 128.
+Fixpoint unpack_word (n : nat) (x : Uint63.int) : list N :=
+  match n with
+  | O => []
+  | S k => byte_of_int (Uint63.land x 255%uint63) :: unpack_word k (Uint63.lsr x 8%uint63)
+  end.
+Fixpoint unpack_words (l : list Uint63.int) : list N :=
+  match l with
+  | [] => []
+  | x :: t => unpack_word 7 x ++ unpack_words t
+  end.
+Definition unpack_fast (len : Uint63.int) (l : list Uint63.int) : list N :=
+  firstn (N.to_nat (n_of_int len)) (unpack_words l).
+
 Definition mkbuf (cap : Uint63.int) (n : Uint63.int) (data : list Uint63.int) : buf :=
-  let l := unpack n data in
+  let l := unpack_fast n data in
   {| b_hdr := take VH l; b_pkt := drop VH l; b_cap := n_of_int cap |}.
 Definition mk (udp : bool) (off : Uint63.int) (inp : list buf) (err : bool) (tw : list Uint63.int) (out : list buf) : case :=
   {| c_udp := udp; c_off := n_of_int off; c_in := inp; c_err := err; c_tw := ns_of_ints tw; c_out := out; c_w := false |}.
